@@ -7,23 +7,23 @@ namespace Sge.Core
 open Sge Sge.Genesis
 
 /-- the whole-history invariants of a reachable state -/
-structure AllInv (s : State) : Prop where
+structure RetAll (s : State) : Prop where
   sett : SettleInv s
   ob : ObInv s
   ret : RetInv s
 
-theorem AllInv.pay {s : State} (h : AllInv s) : PayInv s := PayInv.of_invs h.sett h.ob h.ret
+theorem RetAll.pay {s : State} (h : RetAll s) : PayInv s := PayInv.of_invs h.sett h.ob h.ret
 
 /-- one iteration of BatchOrderBookSettlements: the resolved book `b` is replaced by `B`, which carries the
     participation list the participation loop returned -/
 theorem ret_obIter {s : State} {n : Nat} {b : Book} {m : Market} {r : State × Book × Nat × Nat}
-    (hA : AllInv s) (hbm : b ∈ s.books) (hm : getMarket s b.uid = some m) (hres : b.status = OB_RESOLVED)
+    (hA : RetAll s) (hbm : b ∈ s.books) (hm : getMarket s b.uid = some m) (hres : b.status = OB_RESOLVED)
     (hr : settleParts m n b.parts s b 0 0 = some r)
     (B : Book) (s'' : State) (hBx : Ext b B) (hBp : B.parts = r.2.1.parts)
     (hBs : B.status = OB_RESOLVED ∨ (B.status = OB_SETTLED ∧ r.2.2.2 = b.parts.length))
     (hbal : s''.bal = r.1.bal) (hbooks : s''.books = upsert Book.key B s.books) (hbets : s''.bets = s.bets)
     (hpend : s''.pending = s.pending) (hmk : s''.markets = s.markets) (hmq : s''.mqueue = s.mqueue)
-    (hc : s''.betCount = s.betCount) : AllInv s'' ∧ ObStep s s'' := by
+    (hc : s''.betCount = s.betCount) : RetAll s'' ∧ ObStep s s'' := by
   obtain ⟨hI, hO, hR⟩ := hA
   have hBu : B.uid = b.uid := hBx.uid
   have hb : getBook s b.uid = some b := mem_getBook hO.sB hbm
@@ -101,7 +101,7 @@ theorem ret_obIter {s : State} {n : Nat} {b : Book} {m : Market} {r : State × B
 /-- BatchOrderBookSettlements: all invariants are kept, and every participation record of the resulting state is an
     old record or was written by one witnessed `settleParticipation` call -/
 theorem ret_obEndBlock_trace : ∀ (fuel : Nat) (s : State) (n i : Nat) (s' : State),
-    AllInv s → obEndBlock fuel s n i = some s' → AllInv s' ∧ ObStep s s' := by
+    RetAll s → obEndBlock fuel s n i = some s' → RetAll s' ∧ ObStep s s' := by
   intro fuel
   induction fuel with
   | zero => intro s n i s' hA h; simp [obEndBlock] at h; rw [← h]; exact ⟨hA, ObStep.refl s⟩
@@ -146,19 +146,19 @@ theorem ret_obEndBlock_trace : ∀ (fuel : Nat) (s : State) (n i : Nat) (s' : St
 
 /-- a successful end-block: the bet phase leads to `s1` (only realised profits move in the books, no paid record is
     touched), the order-book phase from `s1` to `s'` is traced -/
-theorem ret_endBlockO_trace {s s' : State} (hA : AllInv s) (h : endBlockO s = some s') :
-    AllInv s' ∧ ∃ s1, AllInv s1 ∧ StStep s s1 ∧ ProfOnly s s1 ∧ s1.markets = s.markets ∧ ObStep s1 s' := by
+theorem ret_endBlockO_trace {s s' : State} (hA : RetAll s) (h : endBlockO s = some s') :
+    RetAll s' ∧ ∃ s1, RetAll s1 ∧ StStep s s1 ∧ ProfOnly s s1 ∧ s1.markets = s.markets ∧ ObStep s1 s' := by
   unfold endBlockO at h
   simp only [bind, Option.bind_eq_some_iff] at h
   obtain ⟨s1, h1, h2⟩ := h
   obtain ⟨hR1, hP1⟩ := ret_betEndBlock _ _ _ _ hA.ob hA.ret h1
-  have hA1 : AllInv s1 := ⟨betEndBlock_inv _ _ _ _ hA.sett h1, betEndBlock_obInv _ _ _ _ hA.ob h1, hR1⟩
+  have hA1 : RetAll s1 := ⟨betEndBlock_inv _ _ _ _ hA.sett h1, betEndBlock_obInv _ _ _ _ hA.ob h1, hR1⟩
   obtain ⟨hA', hS⟩ := ret_obEndBlock_trace _ _ _ _ _ hA1 h2
   exact ⟨hA', s1, hA1, stp_betEndBlock _ _ _ _ hA.ob hA.sett h1, hP1, betEndBlock_markets _ _ _ _ h1, hS⟩
 
-theorem AllInv.sortedParts {s : State} (h : AllInv s) : ∀ b ∈ s.books, Sorted Part.key b.parts := h.sett.sortedParts
+theorem RetAll.sortedParts {s : State} (h : RetAll s) : ∀ b ∈ s.books, Sorted Part.key b.parts := h.sett.sortedParts
 
-theorem ObStep.keeps {s s' : State} (h : ObStep s s') (hsP : ∀ b ∈ s.books, Sorted Part.key b.parts) : Keeps s s' := by
+theorem ObStep.keeps {s s' : State} (h : ObStep s s') (hsP : ∀ b ∈ s.books, Sorted Part.key b.parts) : KeepsPaid s s' := by
   intro b hb p hp hs
   obtain ⟨b', hb', hx⟩ := h.fwd b hb
   have hg := Book.mem_getPart (hsP b hb) hp
@@ -186,17 +186,17 @@ theorem ObStep.paidInv {s s' : State} (h : ObStep s s') (hP : PaidInv s) (hsP : 
 -- ---------------------------------------------------------------------------------------------
 -- every operation
 
-theorem step_allInv (s : State) (op : Op) (hA : AllInv s) (hwf : op.userSigned') : AllInv (step s op).1 :=
+theorem step_retAll (s : State) (op : Op) (hA : RetAll s) (hwf : op.userSigned') : RetAll (step s op).1 :=
   ⟨step_settleInv s op hA.sett hwf, step_obInv s op hA.ob, step_retInv s op hA.ob hA.ret⟩
 
-theorem run_allInv (s : State) (ops : List Op) (hA : AllInv s) (hwf : ∀ op ∈ ops, op.userSigned') : AllInv (run s ops) := by
+theorem run_retAll (s : State) (ops : List Op) (hA : RetAll s) (hwf : ∀ op ∈ ops, op.userSigned') : RetAll (run s ops) := by
   induction ops generalizing s with
   | nil => exact hA
   | cons op rest ih =>
-    exact ih _ (step_allInv s op hA (hwf op (List.mem_cons_self ..))) (fun o ho => hwf o (List.mem_cons_of_mem _ ho))
+    exact ih _ (step_retAll s op hA (hwf op (List.mem_cons_self ..))) (fun o ho => hwf o (List.mem_cons_of_mem _ ho))
 
 /-- every operation except the end-block is an `StStep` -/
-theorem step_stStep (s : State) (op : Op) (hA : AllInv s) (hne : op ≠ .endBlock) : StStep s (step s op).1 := by
+theorem step_stStep (s : State) (op : Op) (hA : RetAll s) (hne : op ≠ .endBlock) : StStep s (step s op).1 := by
   cases op with
   | marketAdd c tk u st en o stt =>
     simp only [step, marketAdd, commit]
@@ -249,21 +249,21 @@ theorem step_stStep (s : State) (op : Op) (hA : AllInv s) (hne : op ≠ .endBloc
   | newBlock h t => exact StStep.of_eq (by rfl)
 
 /-- a paid participation record is still there, unchanged, after any operation -/
-theorem step_keeps (s : State) (op : Op) (hA : AllInv s) : Keeps s (step s op).1 := by
+theorem step_keepsPaid (s : State) (op : Op) (hA : RetAll s) : KeepsPaid s (step s op).1 := by
   by_cases hne : op = .endBlock
   · subst hne
     simp only [step, endBlock]
     cases h : endBlockO s with
-    | none => exact Keeps.refl s
+    | none => exact KeepsPaid.refl s
     | some s' =>
       obtain ⟨_, s1, hA1, hS1, _, _, hS2⟩ := ret_endBlockO_trace hA h
       exact (hS1.keeps hA.sortedParts).trans (hS2.keeps hA1.sortedParts)
   · exact (step_stStep s op hA hne).keeps hA.sortedParts
 
 /-- "every participation of a SETTLED book is paid" is kept by any operation -/
-theorem step_paidInv (s : State) (op : Op) (hA : AllInv s) (hwf : op.userSigned') (hP : PaidInv s) :
+theorem step_paidInv (s : State) (op : Op) (hA : RetAll s) (hwf : op.userSigned') (hP : PaidInv s) :
     PaidInv (step s op).1 := by
-  have hA' := step_allInv s op hA hwf
+  have hA' := step_retAll s op hA hwf
   by_cases hne : op = .endBlock
   · subst hne
     simp only [step, endBlock] at hA' ⊢
@@ -286,13 +286,13 @@ theorem ret_book_unique {s : State} (hsB : Sorted Book.key s.books) {b b0 : Book
     record `p'`, the operation is an end-block, and `p'` was written by one witnessed `settleParticipation` call on
     the record `p0` — `p` with the realised profit as updated by the bets settled earlier in that end-block — made
     in a state with the bets of the new state and the markets of the old one. -/
-theorem step_paid (s : State) (op : Op) (hA : AllInv s) (hwf : op.userSigned')
+theorem step_paid (s : State) (op : Op) (hA : RetAll s) (hwf : op.userSigned')
     (b : Book) (hb : b ∈ s.books) (p : Part) (hp : p ∈ b.parts) (hun : p.isSettled = false)
     (b' : Book) (hb' : b' ∈ (step s op).1.books) (hu : b'.uid = b.uid) (p' : Part) (hp' : p' ∈ b'.parts)
     (hi : p'.idx = p.idx) (hs' : p'.isSettled = true) :
     op = .endBlock ∧ ∃ p0 : Part, p0 = { p with actualProfit := p0.actualProfit } ∧
       PaidAt (step s op).1.bets s.markets b.uid p0 p' := by
-  have hA' := step_allInv s op hA hwf
+  have hA' := step_retAll s op hA hwf
   have hgp : b.getPart p.idx = some p := Book.mem_getPart (hA.sortedParts b hb) hp
   have hgp' : b'.getPart p.idx = some p' := by rw [← hi]; exact Book.mem_getPart (hA'.sortedParts b' hb') hp'
   by_cases hne : op = .endBlock
@@ -370,21 +370,21 @@ theorem ret_paidAt_exact {bets : List Bet} {mks : List Market} {u : Nat} {p p' :
 -- ---------------------------------------------------------------------------------------------
 -- histories
 
-theorem run_keepsPaid (s : State) (ops : List Op) (hA : AllInv s) (hwf : ∀ op ∈ ops, op.userSigned') :
-    Keeps s (run s ops) := by
+theorem run_keepsPaid (s : State) (ops : List Op) (hA : RetAll s) (hwf : ∀ op ∈ ops, op.userSigned') :
+    KeepsPaid s (run s ops) := by
   induction ops generalizing s with
-  | nil => exact Keeps.refl s
+  | nil => exact KeepsPaid.refl s
   | cons op rest ih =>
-    have h1 := step_keeps s op hA
-    have hA1 := step_allInv s op hA (hwf op (List.mem_cons_self ..))
+    have h1 := step_keepsPaid s op hA
+    have hA1 := step_retAll s op hA (hwf op (List.mem_cons_self ..))
     exact h1.trans (ih _ hA1 (fun o ho => hwf o (List.mem_cons_of_mem _ ho)))
 
-theorem run_paidInv (s : State) (ops : List Op) (hA : AllInv s) (hP : PaidInv s) (hwf : ∀ op ∈ ops, op.userSigned') :
+theorem run_paidInv (s : State) (ops : List Op) (hA : RetAll s) (hP : PaidInv s) (hwf : ∀ op ∈ ops, op.userSigned') :
     PaidInv (run s ops) := by
   induction ops generalizing s with
   | nil => exact hP
   | cons op rest ih =>
     have hw := hwf op (List.mem_cons_self ..)
-    exact ih _ (step_allInv s op hA hw) (step_paidInv s op hA hw hP) (fun o ho => hwf o (List.mem_cons_of_mem _ ho))
+    exact ih _ (step_retAll s op hA hw) (step_paidInv s op hA hw hP) (fun o ho => hwf o (List.mem_cons_of_mem _ ho))
 
 end Sge.Core
